@@ -325,6 +325,19 @@ func (c *checker) marshalSide(s *subject, vc vcase) (baseline []byte, baselineOK
 			c.fail("marshal/error-but-owning-runtime-marshals", s, vc, "", d)
 			return nil, false
 		}
+		// the returned bytes belong to the caller: a later call of the adapter must not change them
+		if len(out) > 0 {
+			snap := append([]byte{}, out...)
+			other := c.combos[(ci+7)%len(c.combos)]
+			_, _, _ = guardB(func() ([]byte, error) { return csproto.JSONMarshaler(src, other.opts()...).MarshalJSON() })
+			_, _, _ = guardB(func() ([]byte, error) { return csproto.JSONMarshaler(src).MarshalJSON() })
+			if !bytes.Equal(out, snap) {
+				d := det(snap)
+				d["after_later_call"] = trunc(out)
+				c.fail("marshal/returned-bytes-changed-by-a-later-call", s, vc, "", d)
+				return nil, false
+			}
+		}
 		if !json.Valid(out) {
 			c.fail("marshal/not-well-formed-json", s, vc, "", det(out))
 			continue
